@@ -236,6 +236,136 @@ func fLateGuard(n *N, seen map[*N]bool) {
 var pool = sync.Pool{New: func() any { return &bytes.Buffer{} }}
 
 func sink([]byte) {}
+var leakyPool = sync.Pool{New: func() any { return new(bytes.Buffer) }}
+
+func fPoolGet(s string) *bytes.Buffer {
+	b := leakyPool.Get().(*bytes.Buffer)
+	b.WriteString(s)
+	return b
+}
+
+func fPoolPut(b *bytes.Buffer) { leakyPool.Put(b) }
+
+type creds struct {
+	UserAttr, PassAttr         string
+	UserPointer, PassPointer   bool
+	UserRequired, PassRequired bool
+}
+
+func fCopySlip(userAtt, passAtt string, ptr, req func(string) bool) creds {
+	return creds{
+		UserAttr:     userAtt,
+		UserPointer:  ptr(userAtt),
+		UserRequired: req(userAtt),
+		PassAttr:     passAtt,
+		PassPointer:  ptr(userAtt),
+		PassRequired: req(passAtt),
+	}
+}
+
+func fIdxSpace(xs []int) int {
+	n := 0
+	for i, a := range xs {
+		for j, b := range xs[i+1:] {
+			if i != j && a == b {
+				n++
+			}
+		}
+	}
+	return n
+}
+
+type bag struct{ Headers, Cookies []string }
+
+type acc struct{ xs []string }
+
+func (a *acc) Merge(xs []string) { a.xs = append(a.xs, xs...) }
+
+func fSeqParity(api, svc bag) (*acc, *acc) {
+	headers := &acc{}
+	headers.Merge(svc.Headers)
+	headers.Merge(api.Headers)
+	cookies := &acc{}
+	cookies.Merge(api.Cookies)
+	cookies.Merge(svc.Cookies)
+	return headers, cookies
+}
+
+func fCloneCond(kind int, in []string) []string {
+	var out []string
+	switch kind {
+	case 0:
+		if len(in) > 0 {
+			out = make([]string, len(in))
+			copy(out, in)
+		}
+	case 1:
+		if len(in) > 1 {
+			out = make([]string, len(in))
+			copy(out, in)
+		}
+	default:
+		if len(in) > 0 {
+			out = make([]string, len(in))
+			copy(out, in)
+		}
+	}
+	return out
+}
+
+type shelf struct {
+	names []string
+	sub   map[string]*shelf
+}
+
+func (s *shelf) Part(n string) *shelf { return s.sub[n] }
+
+func (s *shelf) Has(n string) bool {
+	for _, x := range s.names {
+		if x == n {
+			return true
+		}
+	}
+	return false
+}
+
+func fBypass(s *shelf, part, name string) bool {
+	p := s.Part(part)
+	if p == nil {
+		return false
+	}
+	return s.Has(name)
+}
+
+type rec struct {
+	Name  string
+	Bases []string
+}
+
+func cloneRec(r *rec) *rec { return &rec{Name: r.Name, Bases: r.Bases} }
+
+func fAliasStore(r *rec) *rec {
+	res := cloneRec(r)
+	for i, b := range res.Bases {
+		res.Bases[i] = b + "'"
+	}
+	return res
+}
+
+func takeBody(bodies map[int][]string, code int) []string {
+	b := bodies[code]
+	delete(bodies, code)
+	return b
+}
+
+func fConsumedArg(routes []string, bodies map[int][]string) [][]string {
+	var out [][]string
+	for range routes {
+		out = append(out, takeBody(bodies, 200))
+	}
+	return out
+}
+
 func fSwallow(xs []string, visit func(string) error) error {
 	for _, x := range xs {
 		if err := visit(x); err != nil {
@@ -281,6 +411,16 @@ func LintSelfTest() (map[string]bool, error) {
 	}
 	pkg := &packages.Package{PkgPath: Mod + "/zzselftest", Fset: fset, Types: tp, TypesInfo: info, Syntax: []*ast.File{file}}
 	got := map[string]bool{}
+	var all []*Func
+	for _, d := range file.Decls {
+		if fd, ok := d.(*ast.FuncDecl); ok && fd.Body != nil {
+			obj, _ := info.Defs[fd.Name].(*types.Func)
+			all = append(all, &Func{Pkg: pkg, Decl: fd, Obj: obj, Name: "zzselftest." + fd.Name.Name})
+		}
+	}
+	if _, leaks := PoolLeaks(all); len(leaks) > 0 {
+		got["poolleak"] = true
+	}
 	for _, d := range file.Decls {
 		fd, ok := d.(*ast.FuncDecl)
 		if !ok || fd.Body == nil {
@@ -309,6 +449,6 @@ func LintSelfTest() (map[string]bool, error) {
 }
 
 // SelfTestKinds lists the lint kinds that must fire in the self-test.
-var SelfTestKinds = []string{"lateguard", "afterput", "dupbranch", "selfsearch", "twinguard", "lazyinit", "shallow", "var", "memo", "recursion", "slice", "flag", "break", "swap", "guardfield", "retryonce", "guardvar", "rawname", "invariant", "mapstore", "selfcopy", "parity", "maporder", "swallow"}
+var SelfTestKinds = []string{"lateguard", "afterput", "dupbranch", "selfsearch", "twinguard", "lazyinit", "shallow", "var", "memo", "recursion", "slice", "flag", "break", "swap", "guardfield", "retryonce", "guardvar", "rawname", "invariant", "mapstore", "selfcopy", "parity", "maporder", "swallow", "poolleak", "copyslip", "idxspace", "seqparity", "clonecond", "bypass", "aliasstore", "consumedarg"}
 
 func init() { sort.Strings(SelfTestKinds) }
